@@ -12,6 +12,7 @@ import (
 	"strconv"
 	"strings"
 	"time"
+	"unsafe"
 
 	"github.com/vimeo/dials"
 	cuedec "github.com/vimeo/dials/decoders/cue"
@@ -145,6 +146,104 @@ var psTypes = []psType{
 	{"[][]int", rt[[][]int](), keyNestedCollection},
 	{"[]map[string]int", rt[[]map[string]int](), keyNestedCollection},
 	{"[]map[string][]string", rt[[]map[string][]string](), keyNestedCollection},
+	// uintptr-kind types in every position (the string path does not support
+	// the kind: each must come back as an error, also for well-formed numbers)
+	{"Handle", rt[Handle](), ""},
+	{"*uintptr", rt[*uintptr](), ""},
+	{"[]uintptr", rt[[]uintptr](), ""},
+	{"[]Handle", rt[[]Handle](), ""},
+	{"map[string]uintptr", rt[map[string]uintptr](), ""},
+	{"map[string]Handle", rt[map[string]Handle](), ""},
+	{"map[uintptr]string", rt[map[uintptr]string](), ""},
+	{"map[Handle]int", rt[map[Handle]int](), ""},
+	{"[]chan int", rt[[]chan int](), ""},
+	{"map[string]func()", rt[map[string]func()](), ""},
+	{"map[string]interface{}", rt[map[string]interface{}](), ""},
+	{"[]interface{}", rt[[]interface{}](), ""},
+	{"map[string]struct{A int}", rt[map[string]struct{ A int }](), ""},
+	{"unsafe.Pointer", rt[unsafe.Pointer](), ""},
+}
+
+// psUnsupported lists the selectors of the types whose kind (or element / key
+// kind) parse.String does not support; the rapid generator visits them more
+// often and with well-formed text.
+var psUnsupported = func() []int {
+	var out []int
+	var bad func(t reflect.Type, depth int) bool
+	bad = func(t reflect.Type, depth int) bool {
+		switch t.Kind() {
+		case reflect.Uintptr, reflect.Chan, reflect.Func, reflect.Interface, reflect.Struct, reflect.Array, reflect.Pointer, reflect.UnsafePointer:
+			return !(t.Kind() == reflect.Struct && t.NumField() == 0 && depth > 0) // a set's struct{} element is supported
+		case reflect.Slice:
+			return bad(t.Elem(), depth+1)
+		case reflect.Map:
+			return bad(t.Key(), depth+1) || bad(t.Elem(), depth+1)
+		}
+		return false
+	}
+	for i, p := range psTypes {
+		if bad(p.t, 0) {
+			out = append(out, i)
+		}
+	}
+	return out
+}()
+
+// wellFormedText draws text that is well-formed for a value of type t as far
+// as any spelling exists: numbers for numeric kinds (uintptr included), k:v
+// lists for maps, comma lists for slices, a plain number for everything that
+// has no spelling at all (chan, func, struct, interface, pointer, array).
+func wellFormedText(t *rapid.T, ty reflect.Type, depth int) string {
+	num := func() string {
+		return rapid.SampledFrom([]string{"1", "0", "42", "255", "256", "65535", "4294967296", "18446744073709551615", "0x10", "0b101", "0o17", "1_000", "7"}).Draw(t, "wf_num")
+	}
+	switch ty.Kind() {
+	case reflect.Bool:
+		return rapid.SampledFrom([]string{"true", "false", "1", "0"}).Draw(t, "wf_bool")
+	case reflect.String:
+		return rapid.SampledFrom([]string{"a", "k", "word", "x1"}).Draw(t, "wf_str")
+	case reflect.Float32, reflect.Float64:
+		return rapid.SampledFrom([]string{"1.5", "2", "1e3", "-0.25"}).Draw(t, "wf_float")
+	case reflect.Complex64, reflect.Complex128:
+		return rapid.SampledFrom([]string{"(1+2i)", "3", "1i"}).Draw(t, "wf_cplx")
+	case reflect.Int, reflect.Int8, reflect.Int16, reflect.Int32, reflect.Int64:
+		if ty == rt[time.Duration]() {
+			return rapid.SampledFrom([]string{"1s", "2m", "3h4m"}).Draw(t, "wf_dur")
+		}
+		return rapid.SampledFrom([]string{"1", "-1", "42", "127", "0x10"}).Draw(t, "wf_int")
+	case reflect.Slice:
+		if depth > 1 {
+			return num()
+		}
+		n := rapid.IntRange(1, 3).Draw(t, "wf_n")
+		parts := make([]string, n)
+		for i := range parts {
+			parts[i] = wellFormedText(t, ty.Elem(), depth+1)
+		}
+		return strings.Join(parts, ",")
+	case reflect.Map:
+		if depth > 1 {
+			return num()
+		}
+		n := rapid.IntRange(1, 3).Draw(t, "wf_n")
+		parts := make([]string, n)
+		for i := range parts {
+			k := wellFormedText(t, ty.Key(), depth+1)
+			if ty.Key().Kind() == reflect.String {
+				k = fmt.Sprintf("%s%d", k, i)
+			} else if i > 0 {
+				k = fmt.Sprint(i + 1)
+			}
+			parts[i] = k + ":" + wellFormedText(t, ty.Elem(), depth+1)
+		}
+		return strings.Join(parts, ",")
+	}
+	return num()
+}
+
+func psStructured(t *rapid.T, sel int) []byte {
+	p, _ := psPick(sel)
+	return []byte(wellFormedText(t, p.t, 0))
 }
 
 // psPick maps a selector to a type; a type behind a known defect is replaced
